@@ -83,8 +83,15 @@ func genConcScenario(seed uint64, index int, tier string) *Scenario {
 	alpha := patternAlphabet(sc.Pattern)
 	hr := r.fork(3)
 	nh := hr.between(1, 4)
+	flood := hr.p(1, 8) // every haystack a different near-miss flood: overlapping calls all deep in candidate verification
 	for i := 0; i < nh; i++ {
-		h := genHaystack(hr, sc.Pattern, re, alpha, sizeClass(hr, tier))
+		cl := sizeClass(hr, tier)
+		var h []byte
+		if flood {
+			h = genFlood(hr, re, alpha, 2+cl%2)
+		} else {
+			h = genHaystack(hr, sc.Pattern, re, alpha, cl)
+		}
 		sc.Hays = append(sc.Hays, hex.EncodeToString(h))
 	}
 	or := r.fork(4)
